@@ -13,16 +13,17 @@ import c2lean
 
 MINIC = os.path.join(LEAN, '.lake', 'build', 'bin', 'tjminic')
 
-def regenerate(ctx):
+def regenerate(ctx, targets=('tjminic', 'TJ.Props.C07')):
     """returns (ok, stats).  Holds the generator lock while writing and building."""
     lock = open(os.path.join(LEAN, '.gen.lock'), 'w'); fcntl.flock(lock, fcntl.LOCK_EX)
     try:
         cfg = os.path.dirname(ctx.meta['config_h']) if ctx.meta else None
         try:
             funs, stats = c2lean.regenerate(REPO, cfg)
+            c2lean.regenerate_clean_fallback(REPO, cfg)
         except c2lean.TranslateError as e:
             return False, {'errors': [str(e)], 'functions': 0, 'translated': 0, 'globals': []}
-        r = subprocess.run(['lake', 'build', 'tjminic', 'TJ.Props.C07'], cwd=LEAN, stdout=subprocess.PIPE, stderr=subprocess.STDOUT, text=True)
+        r = subprocess.run(['lake', 'build'] + list(targets), cwd=LEAN, stdout=subprocess.PIPE, stderr=subprocess.STDOUT, text=True)
         stats['build_ok'] = r.returncode == 0
         if r.returncode != 0: stats['build_log_tail'] = r.stdout[-2000:]
         return r.returncode == 0, stats
